@@ -43,7 +43,7 @@ type PoolCfg struct {
 type InSel struct {
 	Src int `json:"src,omitempty"`
 	Sel int `json:"sel,omitempty"`
-	Seq int `json:"seq,omitempty"` // 0: 0xffffffff, 1: 0xfffffffe, 2: 0xfffffffd
+	Seq int `json:"seq,omitempty"` // 0: 0xffffffff, 1: 0xfffffffe, 2: 0xfffffffd, 3..8: BIP68 relative locks (exec_test.go sequenceFor)
 }
 
 type TxSpec struct {
@@ -73,6 +73,7 @@ type TxSpec struct {
 //	         N > 0 limits the weight budget to N*600
 //	tick     Tick(); N pooled transactions (starting at Pick) get Lastseen back-dated by 15 days (Arg bit1:
 //	         13 days), Arg bit0 forces the expiry scan; Ring > 0 changes CFG.TXPool.RejectRecCnt first
+//	ladder   N consecutive insertions into one gap of the rank-ordered list (see ladder_test.go)
 //	deepreorg  a branch of empty blocks replaces the last 101+Arg blocks (deeper than the coinbase maturity)
 //	save     MempoolSave(true) + MempoolLoad(); Arg bit0: with a restart of the chain in between
 type Op struct {
@@ -130,7 +131,7 @@ func genOuts(t *rapid.T, signed bool) []sim.OutSpec {
 }
 
 func genIn(t *rapid.T, src int) InSel {
-	return InSel{Src: src, Sel: rapid.IntRange(0, 1<<12).Draw(t, "sel"), Seq: rapid.SampledFrom([]int{0, 0, 1, 2, 2, 2}).Draw(t, "seq")}
+	return InSel{Src: src, Sel: rapid.IntRange(0, 1<<12).Draw(t, "sel"), Seq: rapid.SampledFrom([]int{0, 0, 0, 1, 1, 2, 2, 2, 2, 2, 3, 3, 4, 5, 6, 6, 7, 8}).Draw(t, "seq")}
 }
 
 // genTx draws a transaction of a given flavour.
@@ -237,6 +238,19 @@ func genCase(t *rapid.T, minOps, maxOps int) Case {
 	if evict {
 		c.Cfg.MaxPoolKB = rapid.SampledFrom([]int{100, 250, 400}).Draw(t, "poolkb")
 	}
+	// one history in ten bisects a single gap of the rank-ordered list until the rank space in it is used up
+	ladderAt := -1
+	var ladderOp Op
+	if rapid.IntRange(0, 9).Draw(t, "ladder") == 0 {
+		ladderOp = Op{K: "ladder", N: rapid.IntRange(46, 62).Draw(t, "rungs"), Arg: rapid.IntRange(0, 7).Draw(t, "larg"), Pick: rapid.IntRange(0, 1<<12).Draw(t, "pick")}
+		ladderAt = rapid.IntRange(0, 30).Draw(t, "ladderat")
+		if ladderOp.Arg&2 == 0 {
+			c.Params.Prefix = 172 // 70+ mature coinbases: every rung spends its own confirmed coin
+		}
+		c.Cfg.NoMemInputs = false
+		c.Cfg.MaxPoolKB = 0
+		evict = false
+	}
 	long := rapid.IntRange(0, 11).Draw(t, "longchain") == 0
 	deep := rapid.IntRange(0, 15).Draw(t, "deep") == 0
 
@@ -248,6 +262,11 @@ func genCase(t *rapid.T, minOps, maxOps int) Case {
 		n = rapid.IntRange(minOps, maxOps).Draw(t, "nops")
 	}
 	for len(c.Ops) < n {
+		if ladderAt >= 0 && len(c.Ops) >= ladderAt {
+			c.Ops = append(c.Ops, ladderOp)
+			ladderAt = -1
+			continue
+		}
 		k := rapid.IntRange(0, 99).Draw(t, "kind")
 		nol := rapid.IntRange(0, 3).Draw(t, "nol") == 0
 		switch {
@@ -341,7 +360,7 @@ func TestMempool(t *testing.T) {
 	if pbt.Tier() == "thorough" {
 		minOps, maxOps = 50, 150
 	}
-	pbt.Check(t, pbt.Cfg{Name: "mempool", Quick: 1600, Thorough: 40000}, func(r *pbt.Run) {
+	pbt.Check(t, pbt.Cfg{Name: "mempool", Quick: 1400, Thorough: 40000}, func(r *pbt.Run) {
 		c := genCase(r.T, minOps, maxOps)
 		r.Case(c)
 		st, err := runCase(c)
